@@ -328,4 +328,26 @@ theorem resolvePercentages_eq_spec (cbW : Rat) (cbH : MF) (s : Style) (hw : 0 â‰
       have := shrink_max s.sizing _ _ h s.maxH vpad vbor v.maxH (hh h rfl)
       cases hs : s.maxH <;> simpa [hs] using this
 
+/-! ### the two passes commute with the per-box interleaving of the code -/
+
+theorem resolveList_isEmpty (cbW : Rat) (cbH : MF) (x : Rat) (cs : List Box) :
+    (resolveList cbW cbH x cs).isEmpty = cs.isEmpty := by
+  cases cs <;> simp [resolveList]
+
+mutual
+  theorem ibox_eq (cbW : Rat) (cbH : MF) (x : Rat) (isRoot : Bool) (y0 : Rat) (adjIn : List Rat) :
+      (b : Box) â†’ ibox cbW cbH x isRoot y0 adjIn b = vbox y0 adjIn (resolveBox cbW cbH x isRoot b)
+    | .mk s cs => by
+      rw [ibox, resolveBox, vbox]
+      simp only [resolveList_isEmpty]
+      rw [ilist_eq]
+  theorem ilist_eq (cbW : Rat) (cbH : MF) (x : Rat) (st : VLoop) :
+      (cs : List Box) â†’ ilist cbW cbH x st cs = vlist st (resolveList cbW cbH x cs)
+    | [] => by rw [ilist, resolveList, vlist]
+    | c :: cs => by
+      rw [ilist, resolveList, vlist]
+      simp only [ibox_eq cbW cbH x false st.y st.adj c]
+      rw [ilist_eq]
+end
+
 end WR.C10
